@@ -376,4 +376,36 @@ def calculateOrder (var : Variant) (op : OP) (velRev : Bool) (box0 : Option (Lis
       box := newBox box0 box }
   calculate var op s
 
+/-! ### `Path.reverse` and velocity-dependent orders (path.py:221-248) -/
+
+/-- a path frame as far as the order parameter is concerned: the arrays stored with the frame
+    and the `vel_rev` flag.  The physical velocity of the frame is `vel · (−1)^velRev`. -/
+structure Frame where
+  sys : Sys
+  velRev : Bool
+deriving DecidableEq, Repr
+
+/-- the System the order parameter has to see for a frame: velocities times `(−1)^velRev`
+    (what `EngineBase.calculate_order` hands over) -/
+def Frame.physical (f : Frame) : Sys := if f.velRev then reverseVel f.sys else f.sys
+
+/-- the order of a frame (as `calculate_order` computes it) -/
+def frameOrder (var : Variant) (op : OP) (f : Frame) : Except Err (List Rat) := value var op f.physical
+
+/-- switch for the recomputation in `Path.reverse`: `asIs` = the code (`order_function.calculate(frame)`
+    reads the velocities stored with the frame and ignores the flag it has just toggled),
+    `repaired` = evaluate on the physical velocities of the reversed frame. -/
+inductive ReverseVariant | asIs | repaired
+deriving DecidableEq, Repr
+
+/-- one frame of `Path.reverse(order_function)` for a velocity-dependent `order_function` and
+    `rev_v = True`: `new_point = phasepoint.copy(); new_point.vel_rev = not new_point.vel_rev;
+    new_point.order = order_function.calculate(new_point)`.  Returns the new frame and its order. -/
+def reverseRecompute (rv : ReverseVariant) (var : Variant) (op : OP) (f : Frame) :
+    Frame × Except Err (List Rat) :=
+  let f' : Frame := { f with velRev := !f.velRev }
+  match rv with
+  | .asIs => (f', value var op f'.sys)
+  | .repaired => (f', value var op f'.physical)
+
 end Infretis.Geom
